@@ -338,7 +338,7 @@ def sample_behaviour(path):
 
 # ----------------------------------------------------------------------------------------------------------------
 def generic_core_check(prop, tier, replay, level, mc_list, sim_list, go_tests, invariants, known_map=None, known_mc=None,
-                       rule="", assumptions=(), extra_env=None, nsim=None, depth=None, pair_check=False, sess=None):
+                       rule="", assumptions=(), extra_env=None, nsim=None, depth=None, pair_check=False, sess=None, post_stage=None):
     v = vlib.Verdict(prop, tier, level)
     scr = vlib.Scratch(prop.lower())
     thorough = tier == "thorough"
@@ -382,6 +382,8 @@ def generic_core_check(prop, tier, replay, level, mc_list, sim_list, go_tests, i
             checks_sess.sess_stage(v, scr, prop, sess["invariants"], dict(SESS_RUNS=(sess.get("runs", 100) * (10 if thorough else 1)), **sess.get("env", {})),
                                    tests=sess.get("tests", "TestSessTransfer$"), names=sess.get("names", ("sess_transfer",)))
             rule += "; session level: " + checks_sess.RULE_TRANSFER
+        if post_stage:
+            post_stage(v, scr, thorough)
         v.cov["rule"] = rule
         v.cov["samples"] = [sample_behaviour(bpath)]
         v.assumptions = list(assumptions)
@@ -485,14 +487,39 @@ def check_c12(tier, replay):
     def sim(th):
         return [("stream", sim_cfg("stream", 80)), ("msg", sim_cfg("msg", 80, writes="{1, 20, 40, 64}")),
                 ("fastcc", sim_cfg("fastcc", 80, ticks="{1, 10, 30}")), ("long", sim_cfg("stream", 80, ticks="{100, 1000, 30000}", maxtime=3000000))]
+    def fec_pairs(v, scr, th):
+        """FEC sequence ids: the same history at encoder position 0 and just before the wrap value (fecdrv TestFecPairs)."""
+        import checks_fec as cf
+        outd = scr.sub("c12-fec")
+        rc, out = vlib.go_test("./fecdrv", "TestFecPairs$", dict(VERIF_OUT=outd, FEC_RUNS=400 if th else 64), timeout=1200)
+        if rc != 0:
+            raise MachineryError("fec driver failed:\n" + out[-3000:])
+        cf.summarize(v, outd, ["fec_pairs"])
+        old = obs_cfg
+        globals()["obs_cfg"] = cf.obs_cfg_fec
+        try:
+            validate_traces(v, scr, "C12", os.path.join(outd, "fec_pairs.ndjson"), "fec_pairs", ["C12_ShiftInvariant", "C05_NoPanic"], None,
+                            conformance=False, obs_module="FecObs")
+        finally:
+            globals()["obs_cfg"] = old
+
     return generic_core_check(
-        "C12", tier, replay, "model_checking", mc, sim, "TestCoreReplay$|TestCorePairs$", inv,
+        "C12", tier, replay, "model_checking", mc, sim, "TestCoreReplay$|TestCorePairs$", inv, post_stage=fec_pairs,
+        sess=dict(invariants=["C09_FecIdInRange", "C09_FecSequence", "C09_FecTypeMatchesPosition", "C09_ParityIsReedSolomon",
+                              "C01_ReadIsNextBytes", "C02_TransferCompletes"], runs=100),
         rule=("every TLC-generated behaviour is executed twice on the real core: at sequence/clock offset 0 and at offsets drawn from "
               "{2^31-w, 2^32-w, random} so that the boundaries are crossed mid-transfer; the two normalised observations (return "
               "values, every header field of every datagram, full state) are paired line by line and must be identical, and each "
               "run must conform to the offset-free specification. The design is also model-checked in a scaled sequence space "
-              "with wrap-around. Non-trivial = pair whose shifted run crosses a 2^31 or 2^32 boundary in sn or clock"),
-        assumptions=["Check()'s answer while an untransmitted segment sits in snd_buf is unspecified (KcpCore.tla CheckUnspecified)"])
+              "with wrap-around. FEC sequence ids: the same history (sizes, idle gaps that skip a group's parity -- in half of the runs "
+              "exactly the last group before the wrap value --, losses, duplicates, reordering) with the encoder/decoder at position 0 "
+              "and one to three groups before the wrap value; stamped ids (relative, modulo the wrap value, in range) and everything "
+              "the decoder does for the three most recent groups must be identical; session level: dialled sessions whose encoder "
+              "starts just before the wrap value, judged by the wire monitors. Non-trivial = pair whose shifted run crosses a 2^31 or "
+              "2^32 boundary in sn or clock, or the wrap value of the FEC ids"),
+        assumptions=["Check()'s answer while an untransmitted segment sits in snd_buf is unspecified (KcpCore.tla CheckUnspecified)",
+                     "FEC decoder: the shard set exactly three groups behind the newest is dropped one step earlier across the wrap (distance "
+                     "is measured modulo 2^32, ids wrap at the wrap value); only the three most recent groups are compared"])
 
 
 # C18
